@@ -5,24 +5,14 @@
 -/
 import FcLemmas.C01Std
 import FcLemmas.C16
+import FcLemmas.C20
 
 namespace Fc
-
-/-- extra laws of the concurrently evaluating families -/
-structure Conc (P : Policy Fix) : Prop where
-  law : Lawful P
-  /-- every child is in the scan order of a live combinator -/
-  order_all : ∀ s c, P.pre s = none → c < s.n → c ∈ P.order s
-  /-- `Pending` is only returned by the readiness checks or after a complete scan -/
-  no_pend_exit : ∀ s i r, (P.handle s i r).exit ≠ some .pending ∧ (P.handle s i r).exit ≠ some .panicked
-  pre_ok : ∀ s, P.pre s ≠ some .pending ∧ P.pre s ≠ some .panicked
-  fin_ok : ∀ s, (P.finish s).exit ≠ some .panicked ∧ (P.finish s).exit ≠ none
 
 namespace C01
 open Mon
 
-def R1 (P : Policy Fix) (e : Eng Fix) : Prop :=
-  P.pre e.s = none → ∀ j, lastRes e.w.trace j = some .pend → P.eligible e.s j = true
+abbrev R1 (P : Policy Fix) (e : Eng Fix) : Prop := C20.R1 P e
 
 /-- events that are neither `pollBegin` nor `pollEnd` -/
 def midPoll : Ev → Bool
